@@ -236,6 +236,7 @@ func c02Run(c *core.Ctx) {
 			c.SetMax("token_length_completed", int64(L))
 		}
 	}
+	c02Trees(c)
 	// soundness self-check of the prefilter at n<=3: nothing it drops may be a valid subset program
 	if c.Shard == 0 {
 		for L := 1; L <= 3; L++ {
@@ -284,4 +285,68 @@ func init() {
 		QuickSec: 240, ThorSec: 2400, Run: c02Run, Replay: c02Replay,
 		Evals: "programs", Nontriv: "distinct_valid_token_sequences",
 	})
+}
+
+// c02Trees: universe (ii) — expression chains of depth <= 3 (every operator pair/triple and operand
+// position), rendered by the independent unparser with minimal and with redundant parentheses, in the
+// default layout and with every single gap turned into a line break.
+func c02Trees(c *core.Ctx) {
+	full := c.Thorough()
+	leaves := gen.Leaves()
+	for depth := 1; depth <= 3; depth++ {
+		hs := gen.Holes(full || depth < 3)
+		lv := leaves
+		if depth == 3 && !full {
+			lv = leaves[:3]
+		}
+		gen.Chains(hs, lv, depth, false, func(e *gen.Node, name string) {
+			if !c.Next() || c.Tick() {
+				return
+			}
+			prog := []*gen.Node{gen.Ex(e), gen.Ex(gen.I("z"))}
+			want := gen.ShapeProgram(prog)
+			for _, red := range []bool{false, true} {
+				toks := gen.UnparseProgram(prog, red)
+				ng := len(toks)
+				if depth == 3 && !full {
+					ng = 1 // default layout only
+				}
+				for dev := 0; dev < ng; dev++ {
+					src := gen.Render(toks, func(i int) string {
+						if i == dev {
+							return "\n"
+						}
+						return " "
+					}, nil)
+					c.Cur(src)
+					c.Inc("reference_parses")
+					gs, _, ok := ref.GShape(src)
+					if !ok {
+						c.Inc("tree_texts_outside_domain")
+						continue
+					}
+					c.Inc("programs")
+					c.Inc("tree_programs")
+					if dev == 0 && !red {
+						if c.Distinct("tree", want) {
+							c.Inc("distinct_valid_token_sequences")
+						}
+						if gs != want {
+							// generator self-check: only meaningful in the hazard-free default layout
+							c.Inc("generator_intent_differs_from_reference")
+							c.Note("generator_mismatch_example", src+" intended "+want+" reference "+gs)
+						}
+					}
+					_, k, d := c02Check(src)
+					if k != "" && c.ShrinkOK(k) {
+						pl, _ := json.Marshal(c02Payload{src})
+						c.Violate(core.Violation{Kind: k, Config: "tree", Case: fmt.Sprintf("%q", src), Detail: d, Payload: pl, Size: len(toks)})
+					}
+					if c.Count0()%20011 == 0 {
+						c.Sample(src)
+					}
+				}
+			}
+		})
+	}
 }
